@@ -220,9 +220,16 @@ def monitorAnnounced (script : List Cmd) (iters : List Iter) (d : Nat) : Option 
   let pk := sentBy iters d
   let tEnd := (iters.getLast?.map (·.now)).getD 0
   let ifs := ((script.filterMap fun c => match c with | .daemon ifs => some ifs | _ => none)[d]?).getD []
-  regs.findSome? fun ((kr, full, _, ips, _, auto) : Nat × BList × BList × List String × Bool × Bool) =>
+  regs.findSome? fun ((kr, full, host, ips, _, auto) : Nat × BList × BList × List String × Bool × Bool) =>
     -- registered once under this name
     if (regs.filter fun o => o.2.1 == full).length != 1 then none else
+    -- a registration that shares its host name with another one may wait for the other's address
+    -- records: every record that joins the probe of the host name starts that probe over (repair
+    -- of D33) - bounded, but not by two seconds
+    let hostKey (h : BList) : BList :=
+      let dbl := [0x2E, 0x6C, 0x6F, 0x63, 0x61, 0x6C, 0x2E, 0x6C, 0x6F, 0x63, 0x61, 0x6C, 0x2E]
+      if dbl.isSuffixOf h then h.take (h.length - 6) else h
+    if (regs.filter fun o => hostKey o.2.2.1 == hostKey host).length != 1 then none else
     let tr := timeOf iters kr
     -- usable: some address of the service lies in the subnet of some interface address
     let usable := auto || ips.any fun ipS =>
